@@ -793,6 +793,13 @@ impl<T: Float> Unpaired<T> {
         let stats_a = self.stats_a;
         let stats_b = self.stats_b;
 
+        if stats_a.sample_count() < 2 {
+            return Err(CIError::TooFewSamples(stats_a.sample_count()));
+        }
+        if stats_b.sample_count() < 2 {
+            return Err(CIError::TooFewSamples(stats_b.sample_count()));
+        }
+
         let n_a = T::from(stats_a.sample_count()).convert("stats_a.sample_count")?;
         let n_b = T::from(stats_b.sample_count()).convert("stats_b.sample_count")?;
         let mean_a = stats_a.sample_mean();
@@ -813,6 +820,11 @@ impl<T: Float> Unpaired<T> {
             sum_s2_n * sum_s2_n
                 / (sa2_na * sa2_na / (n_a + T::one())
                     + sb2_nb * sb2_nb / (n_b + T::one())) - T::one() - T::one();
+
+        if !mean_difference.is_finite() || !std_err_mean.is_finite() {
+            // NaN or infinite observations (or sums that overflowed)
+            return Err(CIError::InvalidInputData);
+        }
 
         let (lo, hi) = stats::interval_bounds(
             confidence,
